@@ -318,11 +318,11 @@ func genC01(g *core.Gen) {
 			ctx.colType = g.Intn(3)
 		}
 		cond := ctx.genCond(g, g.Intn(maxDepth+1))
-		form := g.Intn(4)
+		form := g.Intn(5)
 		stmt := core.Pick(g, stmts)
 		in := core.L(core.A("route"), core.A(r.name), core.I(int64(ctx.colType)), core.I(int64(form)), core.A(stmt),
 			c01Meta(rule), cond, ctx.universe())
-		g.Emit(in, "rule="+r.name, "stmt="+stmt, "root="+cond.Head())
+		g.Emit(in, "rule="+r.name, "stmt="+stmt, "root="+cond.Head(), fmt.Sprintf("form=%d", form))
 	}
 }
 
@@ -386,7 +386,7 @@ func c01SQL(r *c01Rule, form int, stmt string, cond core.Sexp) string {
 		if stmt == "delete" { // single-table DELETE takes no alias in this grammar
 			tbl, k, o = r.table, r.key, "o"
 		}
-	case 3: // schema-qualified table
+	case 3, 4: // schema-qualified table (4: sent from a session whose current database is another one)
 		tbl = r.db + "." + r.table
 	}
 	where := c01Render(cond, k, o)
@@ -397,6 +397,19 @@ func c01SQL(r *c01Rule, form int, stmt string, cond core.Sexp) string {
 		return "DELETE FROM " + tbl + " WHERE " + where
 	}
 	return "SELECT * FROM " + tbl + " WHERE " + where
+}
+
+// c01SessionDB: the session's current database. Form 4 names the table with its
+// schema from a session that has selected the *other* logical database: the
+// statement's own qualifier must decide which rule applies.
+func c01SessionDB(r *c01Rule, form int) string {
+	if form != 4 {
+		return r.db
+	}
+	if r.db == "db_ks" {
+		return "db_mycat"
+	}
+	return "db_ks"
 }
 
 func execC01(in core.Sexp) string {
@@ -416,13 +429,13 @@ func execC01(in core.Sexp) string {
 		return "(parse-error " + core.Text(sql).String() + ")"
 	}
 	phy := map[string]string{"db_ks": "db_ks", "db_mycat": "db_mycat_0"}
-	p, err := plan.BuildPlan(node, phy, r.db, sql, rt, sequence.NewSequenceManager(), nil)
+	p, err := plan.BuildPlan(node, phy, c01SessionDB(r, form), sql, rt, sequence.NewSequenceManager(), nil)
 	if err != nil {
 		return "err"
 	}
 	idxs, ok := plan.VerifPlanRouteIndexes(p)
 	if !ok {
-		return fmt.Sprintf("(not-a-shard-plan %T)", p)
+		return "(not-a-shard-plan)"
 	}
 	// cross-check: one rewritten statement per routed table
 	n := 0
